@@ -552,7 +552,7 @@ namespace
     static std::unique_ptr<NodeType> make_base(const vm::MeshSpec& ms, int qtot, int part_variant)
     {
       std::unique_ptr<NodeType> base = NodeType::make_unique(vm::build_mesh<MeshType>(ms, true));
-      if(part_variant >= 0 && !std::getenv("TMP_NO_PARTS")) attach_base_parts(*base, qtot, part_variant);
+      if(part_variant >= 0) attach_base_parts(*base, qtot, part_variant);
       return base;
     }
   };
